@@ -258,6 +258,7 @@ type condAxiom struct {
 }
 
 var condAxioms = []condAxiom{
+	{"str_concat", "(assert (forall ((a Str) (b Str)) (! (= (str_len (str_concat a b)) (+ (str_len a) (str_len b))) :pattern ((str_concat a b)))))\n(assert (forall ((a Str)) (! (= (str_concat a str_empty) a) :pattern ((str_concat a str_empty)))))\n(assert (forall ((a Str)) (! (= (str_concat str_empty a) a) :pattern ((str_concat str_empty a)))))\n(assert (forall ((a Str) (b Str) (c Str)) (! (= (str_concat (str_concat a b) c) (str_concat a (str_concat b c))) :pattern ((str_concat (str_concat a b) c)))))\n(assert (forall ((a Str) (b Str) (i Int) (j Int)) (! (=> (and (<= (str_len a) i) (<= i j)) (= (str_sub (str_concat a b) i j) (str_sub b (- i (str_len a)) (- j (str_len a))))) :pattern ((str_sub (str_concat a b) i j)))))\n(assert (forall ((a Str) (b Str) (i Int) (j Int)) (! (=> (and (<= 0 i) (<= i j) (<= j (str_len a))) (= (str_sub (str_concat a b) i j) (str_sub a i j))) :pattern ((str_sub (str_concat a b) i j)))))\n"},
 	{"str", "(assert (forall ((s Str)) (! (>= (str_len s) 0) :pattern ((str_len s)))))\n(assert (forall ((s Str)) (! (=> (= (str_len s) 0) (= s str_empty)) :pattern ((str_len s)))))\n"},
 	{"bytes_str", "(assert (forall ((a (Array Int Int)) (n Int) (i Int)) (! (=> (and (<= 0 i) (< i n)) (= (str_at (bytes_str a n) i) (select a i))) :pattern ((str_at (bytes_str a n) i)))))\n"},
 	{"str_zeros", "(assert (forall ((n Int)) (! (=> (>= n 0) (= (str_len (str_zeros n)) n)) :pattern ((str_zeros n)))))\n(assert (forall ((n Int) (i Int)) (! (=> (and (<= 0 i) (< i n)) (= (str_at (str_zeros n) i) 0)) :pattern ((str_at (str_zeros n) i)))))\n"},
